@@ -810,12 +810,18 @@ def r12_rule_objects_fresh(ctx, rid: str = "C15.R12") -> None:
     r, prog = ctx.r, ctx.prog
     r.rule(rid, "every detection object stored into a rule's detection map is built or deep-copied for that rule (no shallow copy, no object kept on the filter or transformation): what a pipeline does to one rule is not visible in the next")
 
-    def fresh(v: ast.AST) -> bool:
+    def fresh(v: ast.AST, f: Optional[FuncInfo] = None, depth: int = 0) -> bool:
         if isinstance(v, ast.IfExp):
-            return fresh(v.body) and fresh(v.orelse)
+            return fresh(v.body, f, depth) and fresh(v.orelse, f, depth)
         if isinstance(v, ast.Call):
             d = call_name(v)
             return d in ("copy.deepcopy", "deepcopy") or d.split(".")[-1] in ("SigmaDetection", "from_definition")
+        if isinstance(v, ast.Name) and f is not None and depth < 3 and v.id not in f.params():
+            # a local: every value bound to it in this function is fresh (loop variables and arguments are not locals of this kind)
+            defs = [st.value for st in walk_no_nested(f.node) if isinstance(st, (ast.Assign, ast.AnnAssign)) and getattr(st, "value", None) is not None
+                    and any(isinstance(t, ast.Name) and t.id == v.id for t in (st.targets if isinstance(st, ast.Assign) else [st.target]))]
+            other = [x for x in walk_no_nested(f.node) if isinstance(x, (ast.For, ast.comprehension, ast.With, ast.NamedExpr)) and any(isinstance(t, ast.Name) and t.id == v.id for t in ast.walk(x.target if not isinstance(x, ast.With) else x))]
+            return bool(defs) and not other and all(fresh(d, f, depth + 1) for d in defs)
         return False
     n = 0
     for q, f in sorted(prog.funcs.items()):
@@ -838,7 +844,7 @@ def r12_rule_objects_fresh(ctx, rid: str = "C15.R12") -> None:
         for st, v in sites:
             n += 1
             loc = f"{f.module.relpath}:{st.lineno}"
-            if fresh(v):
+            if fresh(v, f):
                 r.ok(rid, q, f"{short(st, 90)}: built or deep-copied for this rule", loc)
             else:
                 r.violation(rid, q, short(st, 140),
